@@ -105,6 +105,7 @@ func vpSchedExplore(on bool)
 func vpSchedExploreFine(preemptions int)
 func vpYield()
 func vpTempDir() string
+func vpRemoteURL() string
 func vpSleep(seconds int)
 func vpFaultArm()
 func vpFaultFired() bool
